@@ -86,7 +86,7 @@ Sync(c, s) ==
        IF \E p \in DOMAIN Roots(s) : IsJunk(Roots(s)[p]) THEN
             Fail(s, IF s.aftercall THEN "callenv" ELSE "undef", "a live object variable holds a destroyed or never-written pointer"
                     \o (IF s.aftercall THEN " right after a call of the print runtime" ELSE "") \o " (at " \o n.k \o ")")
-       ELSE IF hv.why # "" THEN Fail(s, "heap", hv.why \o " (at " \o n.k \o ")")
+       ELSE IF hv.why # "" THEN Fail(s, IF hv.leak THEN "leak" ELSE "heap", hv.why \o " (at " \o n.k \o ")")
        ELSE IF hv.F > peak + FootprintK THEN Fail(s, "footprint", "allocation frontier exceeds peak reachable blocks + K (at " \o n.k \o ")")
        ELSE LET bad == {p \in 1..Len(m.env) : Shallow(c, s, p)[1] # ""}
                 badU == {p \in bad : Shallow(c, s, p)[1] = "undef"}
